@@ -10,6 +10,15 @@ HARNESS = "h_codec"
 QUICK_LEVEL = "thorough"      # the larger case set costs only seconds
 THOROUGH_SEEDS = 6
 GEN = [constants.gen]
+
+
+def _codec_consts():
+    # h_codec.c includes the literal-call table that C15's generator writes
+    from props import C15
+    return C15.gen_consts()
+
+
+GEN.append(_codec_consts)
 TIE = ['Ufw.Tie.Varint']
 RULE = ("values: 0, 2^(7k)-1, 2^(7k), 2^(7k)+1 for every k, all single-bit values, type extremes and seeded random values, "
         "each through length query, buffer encoder (several buffer states incl. too little room), sink encoder; decoders: every "
